@@ -59,7 +59,7 @@ type childRequest struct {
 	Dump bool
 }
 
-var cogFrame = regexp.MustCompile(`github\.com/grafana/cog/internal/([A-Za-z0-9_/]+\.[^\s(]+(?:\([^)]*\)\.[A-Za-z0-9_]+)?)`)
+var cogFrame = regexp.MustCompile(`github\.com/grafana/cog/internal/([A-Za-z0-9_/]+\.(?:\([^)]*\)\.)?[A-Za-z0-9_.\[\]]+)`)
 
 // topCogFrame returns the first cog function in a stack dump that follows a
 // panic frame (or the first one at all).
@@ -266,16 +266,26 @@ func main() {
 	if r.Replay != "" {
 		replay(r)
 	}
+	t0 := time.Now()
+	dbg := func(format string, a ...any) {
+		if os.Getenv("VERIF_C16_DEBUG") != "" {
+			fmt.Fprintf(os.Stderr, "[%6.1fs] "+format+"\n", append([]any{time.Since(t0).Seconds()}, a...)...)
+		}
+	}
 	cases, families := enumerate(r.Thorough())
+	dbg("enumerated %d cases %v", len(cases), families)
 
-	type outcome struct {
-		failed bool
+	// Every evaluation is memoised by canonical witness: one execution of the
+	// implementation per distinct schema set, whoever asks for it.
+	type memo struct {
+		once sync.Once
+		res  evalResult
 	}
 	var mu sync.Mutex
-	evaluated := map[string]bool{}
+	memos := map[string]*memo{}
 	counters := map[string]int{}
 	var nBuilders, nOptions int
-	var failing []testCase
+	var failing []testCase // failing cases whose reductions still have to be looked at
 
 	record := func(tc testCase, res evalResult) {
 		mu.Lock()
@@ -306,16 +316,52 @@ func main() {
 				Detail: detail{Family: tc.family, Spec: tc.spec}})
 		}
 	}
+	evalMemo := func(tc testCase) *evalResult {
+		w := witness(tc.spec)
+		mu.Lock()
+		m := memos[w]
+		if m == nil {
+			m = &memo{}
+			memos[w] = m
+		}
+		mu.Unlock()
+		m.once.Do(func() {
+			m.res = evaluate(tc.spec, false)
+			record(tc, m.res)
+		})
+		return &m.res
+	}
+	parallel := func(n int, f func(i int)) {
+		var wg sync.WaitGroup
+		ch := make(chan int, 256)
+		for w := 0; w < runtime.NumCPU(); w++ {
+			wg.Add(1)
+			go func() {
+				defer wg.Done()
+				for i := range ch {
+					f(i)
+				}
+			}()
+		}
+		for i := 0; i < n; i++ {
+			ch <- i
+		}
+		close(ch)
+		wg.Wait()
+	}
 
 	// dedupe by canonical witness, keep enumeration order
 	var todo []testCase
-	for _, tc := range cases {
-		w := witness(tc.spec)
-		if evaluated[w] {
-			continue
+	{
+		seen := map[string]bool{}
+		for _, tc := range cases {
+			w := witness(tc.spec)
+			if seen[w] {
+				continue
+			}
+			seen[w] = true
+			todo = append(todo, tc)
 		}
-		evaluated[w] = true
-		todo = append(todo, tc)
 	}
 	enumerated := len(todo)
 	order := make([]int, len(todo))
@@ -330,60 +376,42 @@ func main() {
 			order[i], order[j] = order[j], order[i]
 		}
 	}
-	var wg sync.WaitGroup
-	ch := make(chan int, 256)
-	for w := 0; w < runtime.NumCPU(); w++ {
-		wg.Add(1)
-		go func() {
-			defer wg.Done()
-			for i := range ch {
-				record(todo[i], evaluate(todo[i].spec, false))
-			}
-		}()
-	}
-	for _, i := range order {
-		ch <- i
-	}
-	close(ch)
-	wg.Wait()
+	parallel(len(order), func(i int) { evalMemo(todo[order[i]]) })
+	dbg("main sweep done: %d failing cases", len(failing))
 
-	// Minimality is decided by executing the implementation (DESIGN §5.1):
-	// every one-step reduction of a failing case that was not enumerated is
-	// evaluated on demand, transitively.
-	onDemand := 0
+	// Minimality is decided by executing the implementation (DESIGN §5.1): for
+	// every failing case its one-step reductions are evaluated (memoised, also
+	// when they lie outside the enumerated families) in a fixed order until,
+	// for each of its failure kinds, a reduction failing the same way is found
+	// (the case is then not minimal, and the reduction is examined in turn) or
+	// all reductions have been executed (the case is minimal). The set of
+	// executed cases is a deterministic function of the enumerated set.
+	rounds := 0
 	for len(failing) > 0 {
 		batch := failing
 		failing = nil
-		sort.Slice(batch, func(i, j int) bool { return witness(batch[i].spec) < witness(batch[j].spec) })
-		var next []testCase
-		for _, tc := range batch {
-			for _, red := range reductions(tc.spec) {
-				w := witness(red)
-				if evaluated[w] {
-					continue
-				}
-				evaluated[w] = true
-				next = append(next, testCase{family: "reduction", spec: red})
+		rounds++
+		parallel(len(batch), func(i int) {
+			tc := batch[i]
+			res := evalMemo(tc)
+			open := map[string]bool{}
+			for _, f := range res.Findings {
+				open[f.Kind] = true
 			}
-		}
-		onDemand += len(next)
-		ch := make(chan int, 256)
-		var wg sync.WaitGroup
-		for w := 0; w < runtime.NumCPU(); w++ {
-			wg.Add(1)
-			go func() {
-				defer wg.Done()
-				for i := range ch {
-					record(next[i], evaluate(next[i].spec, false))
+			for _, red := range reductions(tc.spec) {
+				if len(open) == 0 {
+					break
 				}
-			}()
-		}
-		for i := range next {
-			ch <- i
-		}
-		close(ch)
-		wg.Wait()
+				rr := evalMemo(testCase{family: "reduction", spec: red})
+				for _, f := range rr.Findings {
+					delete(open, f.Kind)
+				}
+			}
+		})
+		dbg("reduction round %d: %d failing cases examined, %d newly failing reductions", rounds, len(batch), len(failing))
 	}
+	onDemand := len(memos) - enumerated
+	evaluated := memos
 
 	var samples []any
 	for _, i := range []int{0, len(todo) / 7, 2 * len(todo) / 7, 3 * len(todo) / 7, 4 * len(todo) / 7, 5 * len(todo) / 7, 6 * len(todo) / 7, len(todo) - 1} {
@@ -397,19 +425,19 @@ func main() {
 	}
 	sort.Strings(famList)
 	r.Finish(map[string]any{
-		"states":                        len(evaluated),
-		"transitions":                   transitions,
-		"traces_validated_against_impl": transitions,
-		"samples":                       samples,
-		"exhaustive":                    true,
-		"enumerated_schema_sets":        enumerated,
-		"cases_per_family_before_dedup": famList,
+		"states":                         len(evaluated),
+		"transitions":                    transitions,
+		"traces_validated_against_impl":  transitions,
+		"samples":                        samples,
+		"exhaustive":                     true,
+		"enumerated_schema_sets":         enumerated,
+		"cases_per_family_before_dedup":  famList,
 		"reductions_evaluated_on_demand": onDemand,
-		"child_process_runs":            childRuns,
-		"builders_compared":             nBuilders,
-		"options_compared":              nOptions,
-		"oracle_clauses_exercised":      counters,
-		"explanation": "every grammar-I schema set of the listed families is built twice (fresh values), once for cog's own (&ast.BuilderGenerator{}).FromAST — the call `inspect --ir builders` makes before veneers — and once for an independent derivation transcribed from DESIGN Appendix A.2; compared: the set of builders (Package, Name, For), and per field of the resolved struct exactly-once coverage by an option (name, single argument name/type, default, one direct assignment to [field] with argument value and each scalar constraint op+first argument) or a constructor constant (path, value) or nothing (constant reference); schema sets with an alias cycle run in a child process so that a stack overflow is recorded as a crash: finding instead of killing the run",
+		"child_process_runs":             childRuns,
+		"builders_compared":              nBuilders,
+		"options_compared":               nOptions,
+		"oracle_clauses_exercised":       counters,
+		"explanation":                    "every grammar-I schema set of the listed families is built twice (fresh values), once for cog's own (&ast.BuilderGenerator{}).FromAST — the call `inspect --ir builders` makes before veneers — and once for an independent derivation transcribed from DESIGN Appendix A.2; compared: the set of builders (Package, Name, For), and per field of the resolved struct exactly-once coverage by an option (name, single argument name/type, default, one direct assignment to [field] with argument value and each scalar constraint op+first argument) or a constructor constant (path, value) or nothing (constant reference); schema sets with an alias cycle run in a child process so that a stack overflow is recorded as a crash: finding instead of killing the run",
 	}, []string{
 		"leniences (statement silent): order of builders and of options; comments, veneer trails, nil checks, builder Properties/Factories; an optional or nullable reference to a constant (or a reference to a nullable constant) may be covered by an option or by a constructor constant; constraints on assignments of non-scalar fields are not judged; a constant reference may also be covered by a constructor constant equal to its reference value",
 		"constraint operators exercised are those of grammar I (minLength, maxLength, >=, <); all other operators go through the same code path",
